@@ -1,5 +1,5 @@
 """JSON encoding of Python values used in cases: ["undef"], ["none"], ["b",true], ["i",1],
-["f","5/2"], ["s","x"], ["t",[1]]; ["other", repr] for anything the model has no value for."""
+["f","5/2"], ["s","x"], ["t",[1]], ["m",[["k",1]]] (a dict, items sorted by key); ["other", repr] for anything the model has no value for."""
 from __future__ import annotations
 
 from fractions import Fraction
@@ -21,6 +21,8 @@ def dec(j):
         return float(Fraction(j[1]))
     if t == 't':
         return tuple(j[1])
+    if t == 'm':
+        return {k: v for k, v in j[1]}      # a fresh dict object on every call
     raise ValueError(j)
 
 
@@ -46,6 +48,14 @@ def enc(v):
         return ["s", v]
     if isinstance(v, tuple) and all(isinstance(i, int) and not isinstance(i, bool) for i in v):
         return ["t", list(v)]
+    if isinstance(v, dict) and all(isinstance(k, str) and isinstance(i, int) and not isinstance(i, bool)
+                                   for k, i in v.items()):
+        try:
+            for k in v:
+                cstr(k)
+        except ValueError:
+            return ["other", repr(v)]
+        return ["m", [[k, v[k]] for k in sorted(v)]]
     return ["other", repr(v)]
 
 
